@@ -127,6 +127,33 @@ def crash_sig(prop, rc, santxt):
     return '%s:CRASH:%s:%s' % (prop, kind, frame)
 
 
+def proc_cpu_state(pid):
+    """(cpu seconds used so far, scheduler state) of a process, or (None, '?')."""
+    try:
+        f = open('/proc/%d/stat' % pid).read()
+        rest = f[f.rindex(')') + 2:].split()
+        return (int(rest[11]) + int(rest[12])) / float(os.sysconf('SC_CLK_TCK')), rest[0]
+    except Exception:
+        return None, '?'
+
+
+def starved(w):
+    """The wall-clock watchdog is the last resort for a worker that is *blocked*: every simulated run carries its own CPU
+    budget, so a worker that is runnable, or that has used CPU since the watchdog last looked, is merely waiting for a core
+    on a loaded machine and gets another period (at most ten)."""
+    cpu, state = proc_cpu_state(w.p.pid)
+    prev = getattr(w, 'wd_cpu', None)
+    n = getattr(w, 'wd_extensions', 0)
+    w.wd_cpu = cpu
+    if cpu is None or n >= 10:
+        return False
+    if state == 'R' or prev is None or cpu - prev > 0.05:
+        w.wd_extensions = n + 1
+        w.last_line_t = time.time()
+        return True
+    return False
+
+
 def run_pool(engine, prop, tier, seed, total, budget_s, workers, block=1500):
     """Run scenario indices [0,total) (or until the time budget is used) on a pool of workers."""
     t0 = time.time()
@@ -251,7 +278,7 @@ def run_pool(engine, prop, tier, seed, total, budget_s, workers, block=1500):
                     rest_count = w.start + w.count - rest_start
                     if rest_count > 0 and res['crashes'] < 200:
                         pending.append((rest_start, rest_count))
-            elif time.time() - w.last_line_t > HANG_S:
+            elif time.time() - w.last_line_t > HANG_S and not starved(w):
                 idx = w.cur if w.cur is not None else w.start
                 w.p.kill()
                 w.p.wait()
